@@ -174,7 +174,7 @@ struct DocSpec { text: String, uri: Option<String>, tags: Vec<String>, labels: V
 #[derive(Clone, Debug)]
 struct Req { ast: Ast, top_k: usize, snippet: usize, uri: Option<String>, scope: Option<String>, cursor: Option<String>, follow: bool }
 #[derive(Clone, Debug)]
-enum Op { Put(DocSpec), Commit, Delete(usize), Update(usize, DocSpec), Reopen, Search(Req) }
+enum Op { Put(DocSpec), Commit, CommitSkip, Delete(usize), Update(usize, DocSpec), Reopen, Search(Req) }
 
 fn doc_json(d: &DocSpec) -> Value {
     json!({"text": d.text, "uri": d.uri, "tags": d.tags, "labels": d.labels, "track": d.track, "ts": d.ts,
@@ -199,6 +199,7 @@ fn op_json(o: &Op) -> Value {
     match o {
         Op::Put(d) => json!({"op": "put", "doc": doc_json(d)}),
         Op::Commit => json!({"op": "commit"}),
+        Op::CommitSkip => json!({"op": "commit_skip_indexes"}),
         Op::Delete(i) => json!({"op": "delete", "pick": i}),
         Op::Update(i, d) => json!({"op": "update", "pick": i, "doc": doc_json(d)}),
         Op::Reopen => json!({"op": "reopen"}),
@@ -209,6 +210,7 @@ fn op_from(v: &Value) -> Op {
     match v["op"].as_str().unwrap() {
         "put" => Op::Put(doc_from(&v["doc"])),
         "commit" => Op::Commit,
+        "commit_skip_indexes" => Op::CommitSkip,
         "delete" => Op::Delete(v["pick"].as_u64().unwrap() as usize),
         "update" => Op::Update(v["pick"].as_u64().unwrap() as usize, doc_from(&v["doc"])),
         "reopen" => Op::Reopen,
@@ -273,7 +275,7 @@ fn gen_leaf(rng: &mut Rng, uris: &[String]) -> Ast {
         12..=13 => Ast::Field("tag".into(), { let t = rng.pick(TAGS).to_string(); if rng.chance(1, 3) { t.to_uppercase() } else { t } }),
         14 => Ast::Field("label".into(), { let t = rng.pick(LABELS).to_string(); if rng.chance(1, 3) { t.to_lowercase() } else { t } }),
         15 => Ast::Field("track".into(), rng.pick(TRACKS).to_lowercase()),
-        16..=17 => {
+        16..=18 => {
             let d = |rng: &mut Rng| -> String { match rng.below(4) { 0 => "*".into(), 1 => format!("{}", rng.usize(2018, 2025)),
                 2 => format!("{}-{:02}", rng.usize(2018, 2025), rng.usize(1, 12)), _ => format!("{}-{:02}-{:02}", rng.usize(2018, 2025), rng.usize(1, 12), rng.usize(1, 28)) } };
             let (mut s, e) = (d(rng), d(rng));
@@ -327,6 +329,7 @@ fn gen_history(rng: &mut Rng) -> Vec<Op> {
     if rng.chance(2, 3) { let d = gen_doc(rng, ndocs); ops.push(Op::Update(rng.usize(0, 50), d)); }
     let n = rng.usize(6, 10); searches(rng, &mut ops, &uris, n);
     if rng.chance(1, 4) { ops.push(Op::Reopen); let n = rng.usize(3, 6); searches(rng, &mut ops, &uris, n); }   // reopen replays the WAL
+    if rng.chance(1, 3) { ops.push(Op::CommitSkip); let n = rng.usize(4, 8); searches(rng, &mut ops, &uris, n); }
     ops.push(Op::Commit);
     let n = rng.usize(8, 14); searches(rng, &mut ops, &uris, n);
     ops.push(Op::Reopen);
@@ -433,7 +436,7 @@ fn check_search(mem: &mut Memvid, r: &Req, cursor: Option<String>, situation: &s
                 cx.sum.oracle_violation("hit-outside-uri-scope-filter", &format!("{what_req}: frame {} has uri {:?} (engine {eng})", h.frame_id, f.uri), case.clone()); cx.failed = true; }
             match (&h.chunk_range, &h.chunk_text) {
                 (Some(cr), Some(ct)) => {
-                    let inside = cr.0 <= h.range.0 && h.range.0 < h.range.1 && h.range.1 <= cr.1;
+                    let inside = cr.0 <= h.range.0 && h.range.0 <= h.range.1 && h.range.1 <= cr.1;
                     if !inside { cx.sum.oracle_violation("range-outside-chunk-range", &format!("{what_req}: range {:?} chunk_range {:?}", h.range, cr), case.clone()); cx.failed = true; }
                     let slice = if inside { ct.as_bytes().get(h.range.0 - cr.0..h.range.1 - cr.0) } else { None };
                     if slice != Some(h.text.as_bytes()) {
@@ -550,6 +553,11 @@ fn run_history(ops: &[Op], cx: &mut Ctx) {
         match op {
             Op::Put(d) => { let t0 = std::time::Instant::now(); let pr = mem.put_bytes_with_options(d.text.as_bytes(), put_opts(d)); tick(&T_PUT, t0); match pr { Ok(_) => { pending = true; pending_instant |= d.instant; } Err(e) => cx.sum.notes.push(format!("put failed: {e}")) } }
             Op::Commit => { let t0 = std::time::Instant::now(); let cr = mem.commit(); tick(&T_COMMIT, t0); if let Err(e) = cr { cx.sum.notes.push(format!("commit failed: {e}")); return; } pending = false; pending_instant = false; }
+            Op::CommitSkip => {
+                // bulk-ingestion commit: frames and payloads are persisted, no index is rebuilt (the caller is expected to commit() later)
+                if let Err(e) = mem.commit_skip_indexes() { cx.sum.notes.push(format!("commit_skip_indexes failed: {e}")); return; }
+                pending = false; pending_instant = false; cx.sum.branch("history-has-commit-skip-indexes");
+            }
             Op::Delete(pick) | Op::Update(pick, _) => {
                 let active: Vec<u64> = vh::verif_frames(&mem).iter().filter(|f| f.status == FrameStatus::Active && f.role == FrameRole::Document).map(|f| f.id).collect();
                 if active.is_empty() { continue; }
@@ -595,6 +603,14 @@ fn fixed_corpus() -> Vec<(&'static str, Vec<Op>)> {
             Op::Search(rq(star_and(Ast::Field("scope".into(), "mv2://frames".into())), Some("mv2://frames/1"), None)),
             Op::Search(rq(star_and(Ast::Date("2019".into(), "*".into())), None, Some("mv2://frames/2"))),
             Op::Search(rq(Ast::Word("alpha".into()), Some("mv2://frames/1"), None)),
+        ]),
+        ("inactive-frame-through-tantivy-after-commit-skip-indexes", vec![
+            Op::Put(bare("kiwi first", 1_600_000_000)), Op::Put(bare("kiwi second", 1_600_000_100)), Op::Put(bare("kiwi third", 1_600_000_200)), Op::Commit,
+            Op::Delete(0), Op::Update(0, bare("kiwi second rewritten", 1_600_000_300)),
+            Op::CommitSkip,
+            Op::Search(rq(Ast::Word("kiwi".into()), None, None)),
+            Op::Commit,
+            Op::Search(rq(Ast::Word("kiwi".into()), None, None)),
         ]),
         ("superseded-frame", vec![
             Op::Put(bare("gamma old version", 1_600_000_000)), Op::Put(bare("gamma other", 1_600_000_100)), Op::Commit,
